@@ -208,3 +208,7 @@ type bigInt = big.Int
 var bigE10 = big.NewInt(10_000_000_000)
 
 func sdkAcc(addr []byte) string { return sdk.AccAddress(addr).String() }
+
+type wireMsgTx = wire.MsgTx
+
+func wireOut(v int64, script []byte) *wire.TxOut { return wire.NewTxOut(v, script) }
